@@ -8,6 +8,7 @@ import (
 	"os"
 	"path"
 	"path/filepath"
+	"sort"
 	"strings"
 
 	"github.com/pgavlin/dawn/diff"
@@ -154,13 +155,16 @@ func dirSum(path string, dir *os.File) (string, error) {
 		return "", err
 	}
 
+	// Hash the entries in a fixed order, and hash their names as well as their contents.
+	sort.Slice(entries, func(i, j int) bool { return entries[i].Name() < entries[j].Name() })
+
 	h := sha256.New()
 	for _, entry := range entries {
 		sum, err := fileSum(filepath.Join(path, entry.Name()))
 		if err != nil {
 			return "", err
 		}
-		if _, err := h.Write([]byte(sum)); err != nil {
+		if _, err := fmt.Fprintf(h, "%q %s\n", entry.Name(), sum); err != nil {
 			return "", err
 		}
 	}
